@@ -202,32 +202,53 @@ def seq_case(seed, ops, n_uniform, tags, state_raws=None):
     return Case(f"seq {seed} {st} {flist(us)} {len(ops)} " + " ".join(ops), tags)
 
 
-def parse_seq(line):
+def seqn_case(seed, seed2, ops, n_main, n_aux, tags):
+    """two generators: std::mt19937(seed) (the generator the calls are made on) and std::mt19937(seed2) (the other one)"""
+    g = MT(seed); h = MT(seed2)
+    us = [g.canon() for _ in range(n_main)]; vs = [h.canon() for _ in range(n_aux)]
+    return Case(f"seqn {seed} 0 {flist(us)} {seed2} {flist(vs)} {len(ops)} " + " ".join(ops), tags)
+
+
+def parse_seq(line, full=False):
+    """seq: (seed, state, us, ops); with full=True (seqn lines) also (seed2, vs).
+    ops are tuples; ("onaux", op) and ("nest", same, red, inner, outer) are recursive."""
     t = line.split(); k = 1
+    two = t[0] == "seqn"
     seed = int(t[k]); k += 1
     ns = int(t[k]); k += 1
     state = [int(x) for x in t[k:k + ns]]; k += ns
     n = int(t[k]); k += 1
     us = [tokf(x) for x in t[k:k + n]]; k += n
+    seed2 = None; vs = []
+    if two:
+        seed2 = int(t[k]); k += 1
+        n2 = int(t[k]); k += 1
+        vs = [tokf(x) for x in t[k:k + n2]]; k += n2
     K = int(t[k]); k += 1
-    ops = []
     def num(): nonlocal k; k += 1; return tokf(t[k - 1])
     def integer(): nonlocal k; k += 1; return int(t[k - 1])
     def lst():
         m = integer(); return [num() for _ in range(m)]
     def fx():
         nonlocal k; e, k = fparse(t, k); return e
-    for _ in range(K):
+    def op():
+        nonlocal k
         o = t[k]; k += 1
-        if o in ("uniform", "gauss"): ops.append((o, num(), num()))
-        elif o == "poisson": ops.append((o, num()))
-        elif o == "poissonv": ops.append((o, lst()))
-        elif o == "invt": a = num(); b = num(); ops.append((o, a, b, fx()))
-        elif o == "rej": a = num(); b = num(); c = num(); ops.append((o, a, b, c, fx()))
-        elif o == "rej2": v = [num() for _ in range(5)]; ops.append((o, *v, fx()))
-        elif o == "metro": s = num(); i = [integer() for _ in range(3)]; d = lst(); ops.append((o, s, *i, d, fx()))
-        elif o == "metro2": s = [num(), num()]; i = [integer() for _ in range(3)]; d = lst(); ops.append((o, *s, *i, d, fx()))
-        else: raise ValueError(o)
+        if o == "onaux": return (o, op())
+        if o == "nest":
+            same = t[k] == "same"; red = t[k + 1]; k += 2
+            inner = op(); outer = op(); return (o, same, red, inner, outer)
+        if o in ("uniform", "gauss"): return (o, num(), num())
+        if o == "poisson": return (o, num())
+        if o == "poissonv": return (o, lst())
+        if o == "invt": a = num(); b = num(); return (o, a, b, fx())
+        if o == "rej": a = num(); b = num(); c = num(); return (o, a, b, c, fx())
+        if o == "rej2": v = [num() for _ in range(5)]; return (o, *v, fx())
+        if o == "metro": s = num(); i = [integer() for _ in range(3)]; d = lst(); return (o, s, *i, d, fx())
+        if o == "metro2": s = [num(), num()]; i = [integer() for _ in range(3)]; d = lst(); return (o, *s, *i, d, fx())
+        raise ValueError(o)
+    ops = [op() for _ in range(K)]
+    if full: return seed, state, us, ops, seed2, vs
     return seed, state, us, ops
 
 
@@ -480,8 +501,8 @@ def generate(rng, tier):
 def compare(c, io, mo, tol):
     op = c.line.split(None, 1)[0]
     if op == "law": return (mo == "NOMODEL"), False, ("" if mo == "NOMODEL" else "model driver: " + mo[:60])
-    if op == "seq" and io and not io.startswith(("EXIT", "CRASH", "SANITIZER", "TIMEOUT", "HARNESSERR")):
-        io = io.rsplit(None, 1)[0]          # the next raw output is checked against the Python MT19937 in predicates()
+    if op in ("seq", "seqn") and io and not io.startswith(("EXIT", "CRASH", "SANITIZER", "TIMEOUT", "HARNESSERR")):
+        io = io.rsplit(None, 1 if op == "seq" else 2)[0]          # the next raw output(s) are checked against the Python MT19937 in predicates()
     return compare_lines(io, mo, tol)
 
 
@@ -490,6 +511,11 @@ def nontrivial(c, io):
     if io.startswith(("CRASH", "SANITIZER", "TIMEOUT", "HARNESSERR")): return False
     if t == "mgrid":
         p = c.line.split(); return int(p[3]) >= 2 and int(p[4]) % int(p[3]) != 0
+    if t == "seqn":
+        def names(o): return names(o[1]) if o[0] == "onaux" else ({"nest"} | names(o[3]) | names(o[4]) if o[0] == "nest" else {o[0]})
+        ops = parse_seq(c.line)[3]; ns = set()
+        for o in ops: ns |= names(o)
+        return len(ns) >= 2 and not io.startswith("EXIT")
     if t == "seq":
         _, _, us, ops = parse_seq(c.line)
         if len({o[0] for o in ops}) >= 2: return True
@@ -688,8 +714,17 @@ def replay_seq(us, ops, v):
                 k += kk + 1
         elif name == "invt":
             a, b, e = o[1], o[2], o[3]; u = us[k]; k += 1
+            # Find_Root needs a sign change of u - cdf between the limits (a CDF restricted to a window: valid exactly when the deviate lies
+            # between the end values); otherwise it terminates the process
+            flo = feval(e, min(a, b)); fhi = feval(e, max(a, b))
+            if flo != flo or fhi != fhi: return out, k, True
+            dl = u - flo; dh = u - fhi; eps = 1e-12
+            if (dl > eps and dh > eps) or (dl < -eps and dh < -eps): return out, k, True
+            clear = (dl > eps and dh < -eps) or (dl < -eps and dh > eps)
             r = take(1)
-            if r is None: return out, None, False
+            if r is None:
+                if v is None and clear: continue        # the implementation terminated; not here, if the deviate lies between the end values
+                return out, None, False
             lo, hi = min(a, b), max(a, b); acc = 1e-10 * abs(b - a)
             x = r[0]
             if not (lo <= x <= hi): out.append(("invt:range", f"Inverse_Transform_Sampling returned {x!r} outside [{lo},{hi}]"))
